@@ -56,29 +56,44 @@ Record state := mkState {
   created : bool;            (* ... and was created by this transaction *)
   work : witems;             (* the transaction's working copy of the store *)
   removed_db : bool;         (* a stored item was removed (tracked removeAction) *)
-  bcount : Z;                (* nodeRepository.count: the store's count when it was opened *)
-  prepared : option items    (* what phase 1 persisted, installed by phase 2 *)
+  bcount : Z;                (* nodeRepository.count: the store's count when it was opened / last refetched *)
+  wcount : Z;                (* the B-tree's own StoreInfo.Count: bcount + adds - removes since then *)
+  prepared : option items;   (* what phase 1 persisted, installed by phase 2 *)
+  stale : bool               (* a repeated phase 1 has replaced the B-tree's nodes under the program's cursor *)
 }.
 
 Definition init (m : mode) (d : option store) : state :=
-  mkState (-1) false m d false false false [] false 0 None.
+  mkState (-1) false m d false false false [] false 0 0 None false.
 
 Definition has_begun (s : state) : bool := (0 <=? phase s) && (phase s <? 2).
 
 Definition set_phase (s : state) (p : Z) : state :=
-  mkState p (committed s) (tmode s) (disk s) (handle s) (opened s) (created s) (work s) (removed_db s) (bcount s) (prepared s).
+  mkState p (committed s) (tmode s) (disk s) (handle s) (opened s) (created s) (work s) (removed_db s) (bcount s) (wcount s) (prepared s) (stale s).
 Definition set_committed (s : state) : state :=
-  mkState (phase s) true (tmode s) (disk s) (handle s) (opened s) (created s) (work s) (removed_db s) (bcount s) (prepared s).
+  mkState (phase s) true (tmode s) (disk s) (handle s) (opened s) (created s) (work s) (removed_db s) (bcount s) (wcount s) (prepared s) (stale s).
 Definition set_disk (s : state) (d : option store) : state :=
-  mkState (phase s) (committed s) (tmode s) d (handle s) (opened s) (created s) (work s) (removed_db s) (bcount s) (prepared s).
-Definition set_work (s : state) (w : witems) (rm : bool) : state :=
-  mkState (phase s) (committed s) (tmode s) (disk s) (handle s) (opened s) (created s) w rm (bcount s) (prepared s).
+  mkState (phase s) (committed s) (tmode s) d (handle s) (opened s) (created s) (work s) (removed_db s) (bcount s) (wcount s) (prepared s) (stale s).
+Definition set_work (s : state) (w : witems) (rm : bool) (dc : Z) : state :=
+  mkState (phase s) (committed s) (tmode s) (disk s) (handle s) (opened s) (created s) w rm (bcount s) (wcount s + dc) (prepared s) (stale s).
 Definition set_prepared (s : state) (p : option items) : state :=
-  mkState (phase s) (committed s) (tmode s) (disk s) (handle s) (opened s) (created s) (work s) (removed_db s) (bcount s) p.
+  mkState (phase s) (committed s) (tmode s) (disk s) (handle s) (opened s) (created s) (work s) (removed_db s) (bcount s) (wcount s) p (stale s).
 Definition set_open (s : state) (d : option store) (cr : bool) (w : witems) : state :=
-  mkState (phase s) (committed s) (tmode s) d true true cr w (removed_db s) (len w) (prepared s).
+  let c := match d with Some (c, _) => c | None => 0 end in
+  mkState (phase s) (committed s) (tmode s) d true true cr w (removed_db s) c c (prepared s) (stale s).
+(* refetchAndMerge with nothing left to replay: the working copy, both counts and the tracker are
+   reset to what is stored.  The B-tree's cursor is NOT reset: it keeps pointing into the discarded
+   node objects (Btree.currentItem is a pointer to a slot), so from here on Find's shortcut "the
+   current item has this key" may answer from a node that is no longer part of the tree.  The
+   model does not track cursors; [stale] marks the states where that can happen. *)
+Definition set_refetched (s : state) (p : option items) : state :=
+  match disk s with
+  | Some (c, its) =>
+      mkState (phase s) (committed s) (tmode s) (disk s) (handle s) (opened s) (created s)
+              (map (fun x => (fst x, snd x, ODb)) its) false c c p true
+  | None => s
+  end.
 Definition set_handle (s : state) : state :=
-  mkState (phase s) (committed s) (tmode s) (disk s) true (opened s) (created s) (work s) (removed_db s) (bcount s) (prepared s).
+  mkState (phase s) (committed s) (tmode s) (disk s) true (opened s) (created s) (work s) (removed_db s) (bcount s) (wcount s) (prepared s) (stale s).
 
 Definition add_count (d : option store) (dz : Z) : option store :=
   match d with None => None | Some (c, its) => Some (c + dz, its) end.
@@ -91,7 +106,7 @@ Definition set_items (d : option store) (its : items) : option store :=
 Definition undo (s : state) : state :=
   if created s then set_disk s None
   else match prepared s with
-       | Some _ => set_disk s (add_count (disk s) (bcount s - len (work s)))
+       | Some _ => set_disk s (add_count (disk s) (bcount s - wcount s))
        | None => s
        end.
 (* the rollback run by a Phase1Commit that is called again over already persisted work: the log
@@ -141,6 +156,12 @@ Definition w_load (d : items) : witems := map (fun x => (fst x, snd x, ODb)) d.
 Definition has_tracked (s : state) : bool :=
   removed_db s || existsb (fun x => match snd x with ODb => false | _ => true end) (work s).
 
+(* some stored item was updated (tracked updateAction) *)
+Definition has_db_update (w : witems) : bool :=
+  existsb (fun x => match snd x with ODbUpdated => true | _ => false end) w.
+
+Arguments has_db_update : simpl never.
+
 (* Transaction.Phase1Commit *)
 Definition do_p1 (f : bool) (s : state) : result * state :=
   if negb (has_begun s) then (RErr, s)
@@ -153,10 +174,24 @@ Definition do_p1 (f : bool) (s : state) : result * state :=
         if negb (has_tracked s) then (ROk, s1)
         else
           match prepared s with
-          | Some _ => (RErr, undo_rewound (set_phase s1 2))     (* phase 1 run a second time over already persisted work fails *)
+          | Some _ =>
+              (* Phase 1 run again over work that an earlier phase 1 already persisted.  The node
+                 handles claimed by the first run are still in flight, so committing the updated
+                 nodes fails and the retry loop (rollback(false), refetchAndMerge) starts:
+                 - a store created by this transaction was removed by that rollback: "store not found";
+                 - tracked updates/removes are replayed and re-tracked on every round, the node
+                   commit fails again each time (retry limit), or the item is no longer found;
+                 - tracked adds are replayed once but NOT re-tracked (value-in-node stores), so the
+                   next round has nothing to replay, nothing to commit, and phase 1 "succeeds" with
+                   the working copy reset to the stored items: the adds are silently dropped.
+                 The log position was rewound by this run, so on failure the count update of the
+                 first run is not put back (undo_rewound). *)
+              if f || created s || removed_db s || has_db_update (work s)
+              then (RErr, undo_rewound (set_phase s1 2))
+              else (ROk, set_refetched s1 (option_map snd (disk s)))
           | None =>
               if f then (RErr, undo (set_phase s1 2))
-              else (ROk, set_prepared (set_disk s1 (add_count (disk s) (len (work s) - bcount s)))   (* commitStores *)
+              else (ROk, set_prepared (set_disk s1 (add_count (disk s) (wcount s - bcount s)))   (* commitStores *)
                                       (Some (w_items (work s))))
           end
     end.
@@ -205,18 +240,18 @@ Definition guard_read (f : bool) (s : state) (op : state -> result * state) : re
 Definition op_add (k v : N) (s : state) : result * state :=
   match w_find k (work s) with
   | Some _ => (RFalse, s)                       (* unique store *)
-  | None => (ROk, set_work s (w_insert k v ONew (work s)) (removed_db s))
+  | None => (ROk, set_work s (w_insert k v ONew (work s)) (removed_db s) 1)
   end.
 Definition op_find (k : N) (s : state) : result * state :=
   match w_find k (work s) with Some _ => (ROk, s) | None => (RFalse, s) end.
 Definition op_update (k v : N) (s : state) : result * state :=
   match w_find k (work s) with
-  | Some _ => (ROk, set_work s (w_update k v (work s)) (removed_db s))
+  | Some _ => (ROk, set_work s (w_update k v (work s)) (removed_db s) 0)
   | None => (RFalse, s)
   end.
 Definition op_remove (k : N) (s : state) : result * state :=
   match w_find k (work s) with
-  | Some (_, o) => (ROk, set_work s (w_remove k (work s)) (removed_db s || match o with ONew => false | _ => true end))
+  | Some (_, o) => (ROk, set_work s (w_remove k (work s)) (removed_db s || match o with ONew => false | _ => true end) (-1))
   | None => (RFalse, s)
   end.
 
